@@ -5,6 +5,7 @@ import os
 import re
 import subprocess
 import sys
+import warnings
 
 import numpy as np
 
@@ -506,6 +507,45 @@ def oracle_api(run):
                         f"changing sample {ix} of {col} keeps the hash",
                         payload={"kind": "sensitivity", "key": "sample"},
                         theorem="C12_sensitive_sample")
+    # ... also on a curve that already carries the hash of a fit: the hash is
+    # a function of the values now, not of the object's history
+    from nanite.fit import IndentationFitter
+    for col, ix, d in [("force", 9, 1e-13), ("tip position", 30, 1e-12)]:
+        ia = curves.make_indentation(cols)
+        ia.apply_preprocessing(["compute_tip_position"])
+        run.case({"sensitivity": "sample-after-fit", "col": col, "index": ix},
+                 kind="api-sensitivity")
+        try:
+            with warnings.catch_warnings():
+                warnings.simplefilter("ignore")
+                ia.fit_model(**b)
+                h_fit = ia.fit_properties.get("hash")
+                arr = np.array(ia[col], copy=True)
+                arr[ix] += d
+                ia[col] = arr
+                h_after = IndentationFitter(ia).hash
+                ib = curves.make_indentation(cols)
+                ib.apply_preprocessing(["compute_tip_position"])
+                ib[col] = arr.copy()
+                h_fresh = api_hash(ib, **b)
+        except BaseException as e:
+            run.failing(SITE_HASH, f"sample-after-fit:{col}:raised",
+                        f"raised {type(e).__name__}: {e}",
+                        payload={"kind": "rerun"})
+            continue
+        if h_after == h_fit:
+            run.failing(SITE_HASH, f"sample-after-fit:{col}:{ix}",
+                        f"sample {ix} of {col} changed on a fitted curve: "
+                        "the fitter still reports the hash of the earlier "
+                        "fit", payload={"kind": "rerun"},
+                        theorem="C12_sensitive_sample")
+        elif h_after != h_fresh:
+            run.failing(SITE_HASH, f"sample-after-fit:{col}:{ix}:fresh",
+                        f"after sample {ix} of {col} changed on a fitted "
+                        "curve the hash differs from that of a fresh curve "
+                        "with the same data and settings",
+                        payload={"kind": "rerun"},
+                        theorem="C12_pure_function")
     return h0
 
 
